@@ -124,7 +124,14 @@ func C18(tier string) int {
 		r, err := rig.NewSignerRig(rig.SignerOpts{
 			Wallets: []string{"W1", "W2"}, DistWallets: []string{"D1"}, Permissions: toPerms(table), Full: true,
 			Populate: func(ctx context.Context, store e2wtypes.Store, enc e2wtypes.Encryptor) error {
-				for w, names := range map[string][]string{"W1": {"acc", "accx", "b", "A.c"}, "W2": {"acc", "z"}} {
+				// One key is held under two wallets (W1/b and W2/z are the same validator key, as after a migration
+				// between wallets): both accounts exist and are listed.
+				shared := rig.NewKey()
+				for _, wn := range []struct {
+					w     string
+					names []string
+				}{{"W1", []string{"acc", "accx", "b", "A.c"}}, {"W2", []string{"acc", "z"}}} {
+					w, names := wn.w, wn.names
 					wl, err := nd.OpenWallet(ctx, w, store, enc)
 					if err != nil {
 						return err
@@ -135,6 +142,9 @@ func C18(tier string) int {
 					sort.Strings(names)
 					for _, n := range names {
 						k := rig.NewKey()
+						if (w == "W1" && n == "b") || (w == "W2" && n == "z") {
+							k = shared
+						}
 						a, err := wl.(e2wtypes.WalletAccountImporter).ImportAccount(ctx, n, k.Marshal(), []byte("pass"))
 						if err != nil {
 							return err
